@@ -70,7 +70,7 @@ def ensure_driver(verbose=False):
     return DRIVER_BIN
 
 
-def _hash_tree(repo, config):
+def _hash_tree(repo, config, with_driver=True):
     h = hashlib.sha256()
     paths = []
     for root, dirs, names in os.walk(os.path.join(repo, "src")):
@@ -88,8 +88,9 @@ def _hash_tree(repo, config):
             h.update(f.read())
         h.update(b"\0")
     h.update(config.encode())
-    with open(DRIVER_BIN, "rb") as f:
-        h.update(hashlib.sha256(f.read()).digest())
+    if with_driver:
+        with open(DRIVER_BIN, "rb") as f:
+            h.update(hashlib.sha256(f.read()).digest())
     return h.hexdigest()[:24]
 
 
